@@ -1,4 +1,5 @@
 import Driver.Kern
+import Driver.KernShare
 import Driver.Preds
 import Driver.Suite
 import Driver.Convert
@@ -8,6 +9,7 @@ def evalLine (line : String) : String :=
   match tokens line with
   | "D" :: rest => evalD rest
   | "K" :: rest => evalK rest
+  | "KS" :: rest => evalKS rest
   | "P" :: rest => evalP rest
   | _ => "bad-op"
 
